@@ -9,6 +9,7 @@ R : Gen_TPS enumerates every coefficient pattern x_1..x_{D-1} and prints the spe
     homogeneity C(c h)[d][k] = c^k C(h)[d][k].
 """
 import itertools, json, random
+import inspect
 import numpy
 from common import *
 
@@ -73,6 +74,13 @@ def catalogue():
         e = [("algopy." + name, getattr(algopy, name))]
         if np_too:
             e.append(("numpy." + name, getattr(numpy, name)))
+        if hasattr(algopy.UTPM, name):           # the method form x.f() and the class-level form UTPM.f(x)
+            if not isinstance(inspect.getattr_static(algopy.UTPM, name), classmethod):
+                e.append(("x.%s()" % name, lambda x, name=name: getattr(x, name)()))
+            e.append(("UTPM.%s(x)" % name, lambda x, name=name: getattr(algopy.UTPM, name)(x)))
+        pair = {"sin": ("sincos", 0), "cos": ("sincos", 1), "sinh": ("sinhcosh", 0), "cosh": ("sinhcosh", 1), "tan": ("tansec2", 0)}.get(name)
+        if pair:                                 # the methods that return two functions at once
+            e.append(("x.%s()[%d]" % pair, lambda x, pair=pair: getattr(x, pair[0])()[pair[1]]))
         add(name, e, mpf, real_pts, cplx_pts)
 
     C = [0.5 + 0.25j, -0.75 + 1.5j, 0.3 + 2.5j, -1.25 - 4.0j]      # incl. imaginary parts beyond pi/2 and pi
